@@ -11,9 +11,12 @@
    the record of the most recent step.  Constants that switch a line of the
    code off exist for the configurations that MUST fail (non-vacuity):
      ExcludeSource     FALSE = the `pid == from` test of rpcs/Publish dropped
-     EarlyReturn       TRUE  = rpcs returns at once when topics[t] is absent   (code as found)
-     FanoutUnfiltered  TRUE  = fanout members are used without re-checking topics[t] (code as found)
-     Tolerated         failure kinds that are listed findings of the code as found  *)
+     EarlyReturn       TRUE  = rpcs returns at once when topics[t] is absent   (code as found, repaired by D21)
+     FanoutUnfiltered  TRUE  = fanout members used without re-checking topics[t] (code as found, repaired by D22)
+     BatchLocalSkipped FALSE = publishMessageBatch hands local-only messages of a batch to the router (code as found)
+     Tolerated         failure kinds accepted as listed findings (empty)
+   The registered configurations check the REPAIRED code (both FALSE, nothing
+   tolerated); the as-found settings are kept as configurations that must fail. *)
 EXTENDS Integers, Sequences, FiniteSets, TLC, PublishRules
 
 CONSTANTS PeerSeq,        \* the peers, in the order scenarios create them
@@ -27,7 +30,7 @@ CONSTANTS PeerSeq,        \* the peers, in the order scenarios create them
           FloodPublish,
           RsSize,         \* RandomSub size estimate
           MaxMsgs, MaxHist, MaxDirect, MaxUnwanted,
-          ExcludeSource, EarlyReturn, FanoutUnfiltered, Tolerated
+          ExcludeSource, EarlyReturn, FanoutUnfiltered, BatchLocalSkipped, Tolerated
 
 Peers    == {PeerSeq[i] : i \in DOMAIN PeerSeq}
 Self     == "self"
@@ -63,8 +66,8 @@ Elig  == {p \in tp : MeshFeature(p) /\ p \notin direct /\ score[p] >= Thr}
 NoUnw == [p \in Peers |-> [m \in Msgs |-> 0]]
 H(a, p, q, v, b) == [a |-> a, p |-> p, q |-> q, v |-> v, b |-> b]
 
-View(src, author, m, local, fpost) ==
-    [router |-> Router, self |-> Self, src |-> src, author |-> author, local |-> local,
+View(src, author, m, local, batch, fpost) ==
+    [router |-> Router, self |-> Self, src |-> src, author |-> author, local |-> local, batch |-> batch,
      floodPublish |-> FloodPublish, D |-> D, tpKnown |-> tp # {}, tp |-> tp, joined |-> Gossip /\ joined,
      mesh |-> mesh, fanout |-> fanout, fanoutPost |-> fpost, direct |-> direct,
      floodp |-> IF Router = "randomsub" THEN {p \in conn : ProtoOf[p] = "flood"} ELSE {p \in Peers : ~MeshFeature(p)},
@@ -198,24 +201,27 @@ Heartbeat ==
        /\ Rec(H("hb", "", "", 0, FALSE))
        /\ UNCHANGED <<conn, ever, tp, joined, direct, score, nmsg>>
 
-DoMsg(src, author, local, h) ==
+\* publishMessage skips the router for local-only messages; publishMessageBatch must do the same
+DoMsg(src, author, local, batch, h) ==
     /\ nmsg < MaxMsgs
     /\ LET m == nmsg + 1 IN
-       \E o \in (IF local THEN {Keep({})} ELSE Rpcs(src, author, m)) :
+       \E o \in (IF local /\ (~batch \/ BatchLocalSkipped) THEN {Keep({})} ELSE Rpcs(src, author, m)) :
           /\ fanout' = o.fan /\ fanKey' = o.key /\ lastpub' = o.lp
           /\ firstpub' = IF fanout = {} /\ o.fan # {} THEN ticks ELSE firstpub
-          /\ LET v == View(src, author, m, local, o.fan)
+          /\ LET v == View(src, author, m, local, batch, o.fan)
              IN last' = [kind |-> IF src = Self THEN "pub" ELSE "fwd", v |-> v, R |-> o.R, lost |-> fanLost,
                          fails |-> StepFailures(v, o.R, o.R)]
     /\ nmsg' = nmsg + 1 /\ Rec(h)
     /\ UNCHANGED <<conn, ever, tp, joined, mesh, direct, score, unw, ticks, fanLost>>
 
-Publish(local) == DoMsg(Self, Self, local, H("publish", "", "", nmsg + 1, local))
+\* batch = the message is part of a batch; consecutive batch publications of a history form ONE PublishBatch call
+Publish(local, batch) == /\ (batch => Gossip)
+                         /\ DoMsg(Self, Self, local, batch, H("publish", "", IF batch THEN "batch" ELSE "", nmsg + 1, local))
 
 \* a remote message is accepted only while subscribed
 Forward(src, author) ==
     /\ joined /\ src \in conn /\ author \in ever \cup {Outsider}
-    /\ DoMsg(src, author, FALSE, H("msg", src, author, nmsg + 1, FALSE))
+    /\ DoMsg(src, author, FALSE, FALSE, H("msg", src, author, nmsg + 1, FALSE))
 
 \* coverage tags of the last step (scenario generation; the real ones are recomputed by PublishTrace)
 LastTags ==
@@ -234,7 +240,7 @@ Step == \/ \E p \in Peers, b \in BOOLEAN : PeerUp(p, b) \/ Sub(p, b)
         \/ \E p \in Peers : Graft(p) \/ SetDirect(p) \/ IDontWant(p) \/ Down(p)
         \/ \E p \in Peers, v \in ScoreVals : SetScore(p, v)
         \/ Subscribe \/ Heartbeat
-        \/ \E b \in BOOLEAN : Publish(b)
+        \/ \E b, c \in BOOLEAN : Publish(b, c)
         \/ \E s \in Peers, a \in Peers \cup {Outsider} : Forward(s, a)
 
 Next == Len(hist) < MaxHist /\ Step /\ tags' = tags \cup LastTags'
